@@ -15,6 +15,13 @@ def run(prog, chk, tier):
                        "relational normal form and must cover every pair of blocks; blocks that cannot be opened are kept as (tag read, bytes read) and re-emitted "
                        "unchanged; freshness is an effect property: the random key and the ephemeral key pair are drawn inside the per-call bodies and never stored in "
                        "defaults, class attributes or globals. Statistical freshness of os.urandom is not decided.")
+    from rules import iteronce as _iteronce
+    from rules.state import LIB_MODULES as _LIB
+
+    _iteronce.iterable_rules(prog, chk, "C07", _LIB)
+    from rules import state as _state
+
+    _state.library_state_rules(prog, chk, "C07")
     bec2.single_key_source_rules(prog, chk, "C07")
     bec2.header_writer_rules(prog, chk, "C07")
     hdr = bec2.header_reader_rules(prog, chk, "C07")
